@@ -268,6 +268,7 @@ pub struct Env {
     /// properties de-synchronise the model: the history goes on with the model-independent monitors only
     pub focus: Vec<&'static str>,
     pub desynced: bool,
+    pub ext: bool,
     pub step_props: std::cell::RefCell<Vec<String>>,
 }
 
@@ -441,6 +442,7 @@ pub fn new_env(kind: Kind, r: &mut Rng, nframes: usize) -> Env {
         last_pf: std::cell::RefCell::new(Vec::new()),
         focus: Vec::new(),
         desynced: false,
+        ext: false,
         step_props: std::cell::RefCell::new(Vec::new()),
     }
 }
@@ -545,7 +547,16 @@ pub fn gen_op(r: &mut Rng, env: &Env, u: &Universe, focus: &str) -> Op {
     } else if x < wmap + 4 {
         // identity map: frames in the universe, plus frames >= 2^47 (must not succeed)
         let size: u64 = 1 << (12 + 9 * (lvl as u32 - 1));
-        let frame = if r.chance(1, 5) { (r.next() & ADDR & !(size - 1)) | (1 << 47) } else { gen_page(r, u, lvl) & 0x7fff_ffff_ffff };
+        let mut frame = if r.chance(1, 5) { (r.next() & ADDR & !(size - 1)) | (1 << 47) } else { gen_page(r, u, lvl) & 0x7fff_ffff_ffff };
+        // the identity page of the frame must not fall into the recursive region (excluded for the recursive mapper)
+        if let Some(ri) = env.rec {
+            if (frame >> 39) & 0x1ff == ri as u64 && frame >> 47 == 0 {
+                frame ^= 1 << 39;
+                if (frame >> 39) & 0x1ff == ri as u64 {
+                    frame ^= 2 << 39;
+                }
+            }
+        }
         Op::IdentityMap { lvl, frame, flags: gen_leaf_flags(r, lvl) }
     } else if x < wmap + 24 {
         Op::Unmap { lvl, page }
@@ -735,6 +746,13 @@ pub fn step(env: &mut Env, op: &Op, fail: Fail, rep: &mut Report, r: &mut Rng, m
     res
 }
 
+fn pre_snap_ref(s: &Option<Vec<u64>>) -> Option<&Vec<u64>> {
+    s.as_ref()
+}
+fn pre_snap_read(s: &Option<&Vec<u64>>, fi: usize, idx: usize) -> Option<u64> {
+    s.map(|v| v[fi * 512 + idx])
+}
+
 /// model-independent monitors only (after a violation of another property de-synchronised the model)
 fn step_desynced(env: &mut Env, op: &Op, rep: &mut Report, r: &mut Rng, mon: &Monitors) -> StepResult {
     let mut st = env.arena.st();
@@ -785,6 +803,10 @@ fn step_desynced(env: &mut Env, op: &Op, rep: &mut Report, r: &mut Rng, mon: &Mo
             }
             let ph = st.phys[i];
             if post.tables.contains_key(&ph) || pre_dump.tables.contains_key(&ph) {
+                continue;
+            }
+            // a table hidden behind a disabled (non-present) parent entry is still a table of the hierarchy
+            if env.ext && matches!(st.role[i], Role::Root | Role::Allocated) {
                 continue;
             }
             if (0..512).any(|s| st.read(i, s) != snap[i * 512 + s]) {
@@ -1411,7 +1433,17 @@ fn untouched_violation(pre: &BTreeMap<u16, hwwalk::RNode>, post: &BTreeMap<u16, 
 // ------------------------------------------------------------------------------------------------
 
 pub fn run_history(kind: Kind, r: &mut Rng, rep: &mut Report, focus: &str, len: usize, nframes: usize, enumerate_faults: bool, mon: &Monitors) {
+    run_history_ext(kind, r, rep, focus, len, nframes, enumerate_faults, mon, false)
+}
+
+/// `ext`: extended-domain history. Leaf flags may lack PRESENT (guard pages), parent flags may lack PRESENT or carry
+/// HUGE_PAGE - states outside the quantifiers of C01/C02, in which the documentation defines no outcome. Such
+/// histories run with the model-independent monitors only (what a failed call may change, allocation discipline
+/// judged from raw memory, byte diff, clean-up clauses, frame_to_pointer / software-MMU targets).
+pub fn run_history_ext(kind: Kind, r: &mut Rng, rep: &mut Report, focus: &str, len: usize, nframes: usize, enumerate_faults: bool, mon: &Monitors, ext: bool) {
     let mut env = new_env(kind, r, nframes);
+    env.desynced = ext;
+    env.ext = ext;
     env.focus = match focus {
         "c01" => vec!["C01", "C11"],
         "c02" => vec!["C02"],
@@ -1423,9 +1455,19 @@ pub fn run_history(kind: Kind, r: &mut Rng, rep: &mut Report, focus: &str, len: 
     let u = universe(r, env.rec);
     rep.count("histories", 1);
     for _ in 0..len {
-        let op = gen_op(r, &env, &u, focus);
+        let mut op = gen_op(r, &env, &u, focus);
+        if env.ext {
+            // leave the documented domain now and then
+            match &mut op {
+                // guard pages: a leaf keeps its frame but loses PRESENT
+                Op::UpdateFlags { flags, .. } if r.chance(1, 3) => *flags &= !P,
+                // a parent entry is disabled (and usually re-enabled by a later set_flags / map_to)
+                Op::SetParent { flags, .. } if r.chance(1, 3) => *flags &= !P,
+                _ => {}
+            }
+        }
         // C02 fault enumeration: fork the state at every map call that needs allocations
-        if enumerate_faults && matches!(op, Op::Map { .. } | Op::IdentityMap { .. }) {
+        if enumerate_faults && !env.ext && matches!(op, Op::Map { .. } | Op::IdentityMap { .. }) {
             let mut probe_model = env.model.clone();
             let dry = model_apply(&mut probe_model, &op, Fail::none());
             let k = dry.requests;
@@ -1508,6 +1550,11 @@ pub fn run(a: &Args, rep: &mut Report, focus: &str) {
         // the interpreter is ~10^4 times slower: under Miri the tool itself judges memory safety, the monitors keep
         // only the dump-vs-model comparison and a few probes
         let mon = Monitors { probes: a.get_u64("probes", 1) != 0, bytediff: a.get_u64("bytediff", if under_miri { 0 } else { 1 }) != 0, max_probes: a.get_u64("max_probes", if under_miri { 3 } else { 0 }) as usize };
-        run_history(kind, &mut r, rep, focus, len, nframes, focus == "c02" && !under_miri, &mon);
+        // every sixth history leaves the documented domain (model-independent monitors only)
+        let ext = !under_miri && h % 6 == 5 && focus != "c01" && focus != "c20";
+        run_history_ext(kind, &mut r, rep, focus, len, nframes, focus == "c02" && !under_miri, &mon, ext);
+        if ext {
+            rep.count("extended_domain_histories", 1);
+        }
     }
 }
